@@ -8,6 +8,7 @@ import MitmVerif.Lemmas.C38_Host
 import MitmVerif.Lemmas.C38_HostValid
 import MitmVerif.Lemmas.C38_Old
 import MitmVerif.Lemmas.C38_State
+import MitmVerif.Model.C38_Tuple
 namespace MitmVerif.Props.C38
 open MitmVerif.C38 MitmVerif.Gen.C38
 
@@ -719,6 +720,81 @@ example :
     ((run1112 [] [hs, ws, ws]).2.map (fun o => (o.bind (fun d => dget d (s "id"))).map enc))
       = [some (enc (.str (s "H"))), some (enc (.str (s "H"))), some (enc (.str (s "W")))] ∧
     (run1112 [] [hs, ws, ws]).1.length = 0 := by decide +kernel
+
+
+/-! #### the release-numbered formats 0.17 … 3.0 -/
+
+/-- the version value each of these converters writes (a tuple is stored as a list) -/
+def tupleNext : Nat → Nat → Value
+  | 0, 17 => .list [.int 0, .int 18] | 0, 18 => .list [.int 0, .int 19] | 0, 19 => .list [.int 1, .int 0, .int 0]
+  | 1, 0 => .list [.int 2, .int 0, .int 0] | 2, 0 => .list [.int 3, .int 0, .int 0] | _, _ => .int 4
+
+private theorem body_t100 (d d' : Dict) (m : Bytes) (h : conv_100_200 d = some d')
+    (h2 : (s "client_conn" == m) = false) (h3 : (s "server_conn" == m) = false) :
+    dget d' m = dget (setVersionT d [2, 0, 0]) m := by
+  unfold conv_100_200 at h
+  simp only [Option.bind_eq_bind, Option.bind_eq_some_iff] at h
+  obtain ⟨d1, hd1, d2, hd2, h⟩ := h
+  rw [dget_viaUpd_ne _ _ _ _ h h3, dget_dupd_ne _ _ _ _ _ h3 hd2, dget_dupd_ne _ _ _ _ _ h2 hd1]
+
+private theorem body_t200 (d d' : Dict) (m : Bytes) (h : conv_200_300 d = some d')
+    (h2 : (s "client_conn" == m) = false) (h3 : (s "server_conn" == m) = false) :
+    dget d' m = dget (setVersionT d [3, 0, 0]) m := by
+  unfold conv_200_300 at h
+  simp only [Option.bind_eq_bind, Option.bind_eq_some_iff] at h
+  obtain ⟨d1, hd1, d2, hd2, h⟩ := h
+  rw [dget_viaUpd_ne _ _ _ _ h h3, dget_dupd_ne _ _ _ _ _ h3 hd2, dget_dupd_ne _ _ _ _ _ h2 hd1]
+
+/-- **tuple_writes_next_version.** Each modelled release-numbered converter stamps exactly its successor version. -/
+theorem tuple_writes_next_version (a b : Nat) (f : Dict → Option Dict) (d d' : Dict)
+    (hf : convTuple a b = some f) (h : f d = some d') : dget d' (s "version") = some (tupleNext a b) := by
+  unfold convTuple at hf
+  split at hf <;> cases hf
+  · unfold conv_017_018 at h
+    simp only [Option.bind_eq_bind, Option.bind_eq_some_iff, Option.pure_def, Option.some.injEq] at h
+    obtain ⟨_, _, _, _, rfl⟩ := h
+    exact dget_dset_same _ _ _
+  · unfold conv_018_019 at h
+    simp only [Option.bind_eq_bind, Option.bind_eq_some_iff, Option.pure_def, Option.some.injEq] at h
+    obtain ⟨_, _, _, _, _, _, _, _, _, _, rfl⟩ := h
+    exact dget_dset_same _ _ _
+  · unfold conv_019_100 at h
+    simp only [Option.bind_eq_bind, Option.bind_eq_some_iff, Option.pure_def, Option.some.injEq] at h
+    obtain ⟨_, _, rfl⟩ := h
+    exact dget_dset_same _ _ _
+  · rw [body_t100 d d' _ h (by decide +kernel) (by decide +kernel)]; exact dget_dset_same _ _ _
+  · rw [body_t200 d d' _ h (by decide +kernel) (by decide +kernel)]; exact dget_dset_same _ _ _
+  · unfold conv_300_4 at h
+    simp only [Option.pure_def, Option.some.injEq] at h
+    subst h
+    exact dget_dset_same _ _ _
+
+/-- **tuple_frame_1_2_3.** 1.0→2.0 (address records unwrapped), 2.0→3.0 (`mitmcert`, `tls_version` added) and 3.0→4 touch
+    only the version and the two connection records: request, response, error, id, type, marked, metadata … stay. -/
+theorem tuple_frame_1_2_3 (a : Nat) (f : Dict → Option Dict) (d d' : Dict) (m : Bytes) (ha : 1 ≤ a)
+    (hf : convTuple a 0 = some f) (h : f d = some d') (hv : (s "version" == m) = false)
+    (h2 : (s "client_conn" == m) = false) (h3 : (s "server_conn" == m) = false) : dget d' m = dget d m := by
+  unfold convTuple at hf
+  split at hf <;> cases hf
+  · omega
+  · omega
+  · omega
+  · rw [body_t100 d d' m h h2 h3]; exact dget_dset_ne _ _ _ _ hv
+  · rw [body_t200 d d' m h h2 h3]; exact dget_dset_ne _ _ _ _ hv
+  · unfold conv_300_4 at h
+    simp only [Option.pure_def, Option.some.injEq] at h
+    subst h
+    exact dget_dset_ne _ _ _ _ hv
+
+-- non-vacuity: a 1.0 record (addresses wrapped in {"address": …, "use_ipv6": …}) through 1.0→2.0→3.0→4
+example :
+    let addr (h : String) (p : Int) : Value := .dict [(.str (s "address"), .list [.str (s h), .int p]), (.str (s "use_ipv6"), .bool false)]
+    let cc : Value := .dict [(.str (s "address"), addr "127.0.0.1" 5)]
+    let sc : Value := .dict [(.str (s "address"), addr "example.com" 443), (.str (s "source_address"), addr "10.0.0.1" 6),
+                             (.str (s "ip_address"), .null), (.str (s "via"), .null)]
+    let d : Dict := [(.str (s "version"), .list [.int 1, .int 0, .int 0]), (.str (s "client_conn"), cc), (.str (s "server_conn"), sc)]
+    ((((conv_100_200 d).bind conv_200_300).bind conv_300_4).bind (fun d' => dget d' (s "version"))).map enc = some (enc (.int 4)) := by
+  decide +kernel
 
 /-! #### the whole modelled chain 12 → 21 -/
 
